@@ -27,6 +27,18 @@ CLAIMED = {
             "deterministic simulation with fault injection: per world every truncation point / read fault / bit flip / include cycle / hostile mutation, x 6 commands, in crash- and hang-detecting worker processes",
             "For each seeded world the fault space is enumerated one fault at a time: the file torn at every byte (thorough; ~30-60 biased cuts per file in quick), vanish/EIO/permission/canonicalize failure/bit flip on each file, include cycles, grammar-aware mutations, deep nesting, huge literals, zero divisors; each faulted world is fed to format, accounts, balance, register, flatten and eval. Oracle is totality only: Ok or Err with a message; panics are caught and signed by call site, aborts/stack overflows/hangs are detected by the parent from worker death or silence and re-executed in a fresh process.",
             "Stack-overflow thresholds are those of an 8 MiB thread in the opt-level-2 simulation build. Numbers outside the decimal range are exempt by the statement (counted as C06/out-of-range). One known finding (deep parenthesis nesting) is listed in known_findings.json."),
+    "C08": ("exploration",
+            "deterministic simulation: every expression tree with up to 2 (quick) / 3 (thorough) leaves plus seeded typed and untyped trees to depth 5, at 7 placements, evaluated by 2-4 simulated processes with different hash seeds and compared with an independent evaluator",
+            "Expression trees over literals {0, 1, 3, 0.5} x {bare, AAA, BBB, CCC}, the four operators and unary minus are enumerated exhaustively for small sizes and generated with a seed beyond that (well-typed by construction, single-commodity, and unconstrained). Each is placed as eval argument, posting amount, cost, total cost, lot price, assignment and balance assertion; the simulator's renderer writes parentheses only where the tree needs them, so precedence and associativity are the parser's. Values must equal the reference evaluator's (exact without division), ill-typed expressions must be rejected, and every simulated process (hash seed) must answer identically; a third of the eval cases also go through `okane primitive eval`.",
+            "Medium simulation contribution: the hash seed decides what a multi-commodity sum collapses to. DONT_CARE corners are listed in the evidence."),
+    "C09": ("exploration",
+            "deterministic simulation with fault injection: seeded price graphs with ties; as-of queries answered by one long-lived Ledger (warm cache, drawn order, repeats) and by fresh simulated processes with other hash seeds; every rate checked against the set of chains the statement admits; price-DB read faults",
+            "Price graphs over 2-6 commodities built from ledger costs, total costs, lot prices, implied exchanges and price-DB lines inside a short window (so dates and distances tie; a quarter of the worlds start from a diamond), queried as of dates on / next to / far from the price dates. The reference model enumerates all simple chains with per-pair source precedence and as-of selection and admits the best by (ledger-derived steps, steps, staleness as max or as sum). One long-lived Ledger answers the whole list in a drawn order with a repeat, fresh simulated processes with other hash seeds answer one query each, and a third of the worlds also go through `okane primitive eval -X`; all must agree. In a fifth of the worlds with a price DB the file vanishes, fails with EIO / permission, is not UTF-8, or ends after k lines.",
+            "Rates compared with relative tolerance 1e-18. Two prices for one pair on one date are DONT_CARE."),
+    "C10": ("exploration",
+            "deterministic simulation: seeded multi-commodity ledgers with prices; `balance -X T` up-to-date / historical / ranged answered by a long-lived Ledger, fresh simulated CLI processes (hash seed) and a fresh OS process with a simulated clock for the default of --now; totals recomputed by the model",
+            "Ledgers over 2-5 commodities with declared precisions for about half of them, price-bearing transactions, holdings with more decimals than declared, zero postings, omitted amounts and optionally a price DB. Each of 2-4 queries (target; up-to-date at a drawn `now`, or historical; whole history or a date range) is answered by one long-lived Ledger and by a fresh simulated CLI process; every account total is recomputed from holdings x admissible rate and rounded only to the target's precision; a non-zero amount without a rate must make the command fail. One run in 24 executes `balance -X T` without --now in a fresh OS process whose simulated clock shows a drawn date and compares it with --now <date>.",
+            "Totals compared with relative tolerance 1e-15. Ties between admissible chains with different rates, totals on a rounding midpoint and rates needed only by exactly-zero amounts are DONT_CARE."),
     "C11": ("exploration",
             "deterministic simulation with fault injection: loader callback sequence vs model flattening under permuted glob enumeration on three file systems (simulated VFS behind ProdFileSystem, FakeFileSystem, real directory), split-vs-unsplit report equality, read faults injected one at a time",
             "A seeded, order-sensitive entry sequence is cut at entry boundaries into an include tree (up to 8 files, depth 3; literal, sub-directory, '../', './', 'sub/../x/' and '*'/'??' glob includes relative to the including file; dot-files and wrong-base-directory decoys next to the matches; sometimes an include matching nothing). The (path, entry) sequence handed to the Loader::load callback must equal the model's flattening for every glob enumeration order the simulated file system returns (2-4 per world; the thorough tier walks permutations systematically), on the repository's FakeFileSystem, and (1 run in 16) in a real directory through the real OS. balance/register/accounts/flatten of the tree must equal those of the one-file ledger. vanish/EIO/permission/invalid-UTF-8 on a matched file must make loading fail; a failing canonicalize must change nothing.",
